@@ -170,7 +170,28 @@ func (h *history) start(is ...int) bool {
 		h.faults = append(h.faults, faultRec{len(h.ops), fmt.Sprintf("start meta %d", i)})
 	}
 	for _, i := range is {
-		if err := h.cl.WaitMeta(i, 120*time.Second); err != nil {
+		var err error
+		for try := 0; try < 6; try++ {
+			if err = h.cl.WaitMeta(i, 120*time.Second); err == nil {
+				break
+			}
+			// A server whose Open failed or is still running must not be
+			// closed by Cluster.Close (its Close dereferences what Open sets up).
+			h.cl.Metas[i].Running = false
+			if !strings.Contains(err.Error(), "address already in use") {
+				break
+			}
+			// the node's fixed port is momentarily the source port of some
+			// other connection on this machine: try again
+			r.Count("d_restart_retries_port_in_use", 1)
+			time.Sleep(time.Second)
+			if e := h.cl.StartMeta(i); e != nil {
+				err = e
+				break
+			}
+		}
+		if err != nil {
+			h.cl.Metas[i].Running = false
 			r.Inconclusive(fmt.Sprintf("(d) %s: %v", h.id, err))
 			return false
 		}
@@ -460,6 +481,19 @@ func (h *history) nextCall(d *meta.Data) call {
 	}
 }
 
+// nextChange picks an operation that is a real change with respect to d (its
+// effect is not there yet).
+func (h *history) nextChange(d *meta.Data) call {
+	var c call
+	for try := 0; try < 40; try++ {
+		c = h.nextCall(d)
+		if c.pred(d) != "" {
+			break
+		}
+	}
+	return c
+}
+
 // isCommandError: the meta service executed the command and rejected it.
 func isCommandError(msg string) bool {
 	for _, s := range []string{"not found", "already exists", "exists", "conflict", "required", "invalid", "too low", "cannot", "can't", "must be", "greater than"} {
@@ -605,6 +639,8 @@ func faultHistory(caseID string, seed int64) {
 	var faultSeq []string
 	noQuorumOps := 0
 	nextFault := 2 + g.Intn(3)
+	forceAllAt := g.Intn(3) // the fault (by ordinal among those on a fully running cluster) that stops every node
+	fullFaults := 0
 	for len(h.ops) < nOps {
 		if len(h.ops) >= nextFault {
 			nextFault = len(h.ops) + 3 + g.Intn(4)
@@ -627,7 +663,12 @@ func faultHistory(caseID string, seed int64) {
 					r.Inconclusive(fmt.Sprintf("(d) %s: no leader before a fault", caseID))
 					return
 				}
-				switch g.Intn(6) {
+				pick := g.Intn(6)
+				if fullFaults == forceAllAt {
+					pick = 5
+				}
+				fullFaults++
+				switch pick {
 				case 0, 1:
 					kind = "stop-leader"
 					h.stop(l, "leader")
@@ -667,12 +708,15 @@ func faultHistory(caseID string, seed int64) {
 					for _, i := range order {
 						h.stop(i, "all")
 					}
-					if noQuorumOps < 1 && g.Intn(2) == 0 { // one call into the void: outcome unknown
+					if noQuorumOps < 1 { // one real change sent into the void: it cannot be acknowledged
 						noQuorumOps++
 						di := g.Intn(nData)
 						d := cl.Datas[di].Srv.MetaClient.Data()
-						h.issue(h.nextCall(&d), di, false)
+						rec := h.issue(h.nextChange(&d), di, false)
 						r.Count("d_ops_issued_without_quorum", 1)
+						if rec.Outcome == ack {
+							r.Count("d_ops_acknowledged_without_quorum", 1)
+						}
 					}
 					if !h.start(g.Perm(3)...) {
 						return
@@ -691,6 +735,9 @@ func faultHistory(caseID string, seed int64) {
 		di := g.Intn(nData)
 		d := cl.Datas[di].Srv.MetaClient.Data()
 		c := h.nextCall(&d)
+		if g.Intn(10) < 7 {
+			c = h.nextChange(&d)
+		}
 		viaHTTP := g.Intn(2) == 0 && (c.q != "" || c.wline != "")
 		h.issue(c, di, viaHTTP)
 	}
